@@ -18,7 +18,7 @@ EXPLANATION = (
     "evaluation over the suffix domain; Equinox's rule is a frozen fact cross-checked against equinox._serialisation._with_suffix); "
     "C18.3 the reader's skeleton is eqx.filter_eval_shape(cls, *args, **kwargs) of the same class and arguments, neither side passes "
     "filter_spec / is_leaf, the writer serialises self; C18.4 every policy class derives from Serializable and no array-annotated "
-    "policy field is static; C18.5 the skeleton can be built at all: no constructor / function of the policy package, and no space member the "
+    "policy field is static; C18.5 (array-annotated parameters and parameters stored into a dynamic float field count as traced; builtin min/max of two arguments is a truth test) the skeleton can be built at all: no constructor / function of the policy package, and no space member the "
     "policy package reads, forces a jax.numpy value or an array-annotated constructor parameter to a Python truth value / number (it runs under "
     "eqx.filter_eval_shape); C18.6 mapping-valued pytree fields keep their order through unflatten; C18.7 no exception on the save / load path is swallowed."
 )
@@ -287,11 +287,13 @@ def check_constructors_traceable(s):
             for a in ast.walk(m.tree):
                 if isinstance(a, ast.Attribute) and ast.unparse(a.value).endswith("space"):
                     used.add(a.attr)
+    owners = {}
     for m in sorted(P.modules.values(), key=lambda m_: m_.name):
         if m.name.startswith("lerax.space"):
             units = [(ci.name, mname, ci.methods[mname]) for ci in m.classes.values() for mname in ci.methods if mname in used]
         elif m.name.startswith("lerax.policy"):
             units = [(ci.name, mname, ci.methods[mname]) for ci in m.classes.values() for mname in ci.methods if mname not in ("render",)]
+            owners.update({ci.name: ci for ci in m.classes.values()})
             units += [(m.name.rsplit(".", 1)[-1], fname, fn_) for fname, fn_ in m.functions.items()]
         else:
             continue
@@ -319,6 +321,17 @@ def check_constructors_traceable(s):
                 # inside the constructor they are tracers; only their static metadata may be read at Python level
                 aparams = {a.arg for a in fn.args.posonlyargs + fn.args.args + fn.args.kwonlyargs
                            if a.annotation is not None and "Array" in ast.unparse(a.annotation) and "None" not in ast.unparse(a.annotation)}
+                # a parameter stored as it is into a dynamic (non-static) float field is a leaf of the module: the field exists as a
+                # leaf so that it may hold a JAX scalar (a scheduled epsilon, a learned scale), and deserialize traces it then
+                oci = owners.get(owner)
+                if mname == "__init__" and oci is not None:
+                    for st in ast.walk(fn):
+                        if isinstance(st, ast.Assign) and len(st.targets) == 1 and isinstance(st.targets[0], ast.Attribute) and isinstance(st.targets[0].value, ast.Name) \
+                                and st.targets[0].value.id == "self":
+                            f_ = oci.fields.get(st.targets[0].attr)
+                            if f_ is not None and not f_.static and f_.annotation is not None and ast.unparse(f_.annotation) == "float":
+                                aparams.update(x.id for x in ast.walk(st.value) if isinstance(x, ast.Name))
+                    aparams &= {a.arg for a in fn.args.posonlyargs + fn.args.args + fn.args.kwonlyargs}
 
                 def forced_params(expr):
                     skip = set()
@@ -351,6 +364,8 @@ def check_constructors_traceable(s):
                         tests.append(node.operand)
                     elif isinstance(node, ast.Call) and isinstance(node.func, ast.Name) and node.func.id in ("bool", "float", "int") and node.args:
                         tests.append(node.args[0])
+                    elif isinstance(node, ast.Call) and isinstance(node.func, ast.Name) and node.func.id in ("min", "max") and len(node.args) >= 2:
+                        tests.extend(node.args)  # the builtin compares its arguments: a truth test on each pair
                     for t in tests:
                         ac = array_calls(t)
                         if ac:
